@@ -226,7 +226,7 @@ STRING_ANS_BAD = ['5', 'None', "['cat']", "{'grade_decimal': 1}", "{'expect': 'c
                   "{'expect': 'cat', 'grade_decimal': -0.1}", "{'expect': 'cat', 'grade_decimal': '1'}",
                   "{'expect': 'cat', 'msg': 5}", "{'expect': 'cat', 'nosuch': 1}", "{'expect': 5}",
                   "('cat', 5)", "{'expect': 'cat', 'ok': 'yes'}", "{'expect': ('a', 5)}", "{'expect': ['a', 'b']}",
-                  "{'expect': 'cat', 'grade_decimal': None}"]
+                  "{'expect': 'cat', 'grade_decimal': None}", "{'expect': 'cat', 'grade_decimal': float('nan')}"]
 
 FORMULA_ANS_GOOD = ["'x+1'", "('x+1', 'x')", "{'expect': 'x', 'grade_decimal': 0.3}",
                     "{'expect': ('x', 'x*1'), 'msg': 'm'}",
@@ -241,7 +241,7 @@ FORMULA_ANS_BAD = ['5', "['x']", 'None', "{'expect': {'comparer_params': 'x', 'c
                    "('x', 5)", "{'expect': 'x', 'nosuch': 2}"]
 
 TOL_GOOD = ['0', '0.1', '1e-6', '1', "'5%'", "'0%'", "'0.5%'"]
-TOL_BAD = ['-0.1', "'-5%'", "'abc'", 'None', '[0.1]', "'5'", "'%'", '1j']
+TOL_BAD = ['-0.1', "'-5%'", "'abc'", 'None', '[0.1]', "'5'", "'%'", '1j', "float('nan')"]   # NaN is not >= 0
 
 
 def math_opts(tolerance="'0.01%'", samples='5', random_functions=True):
@@ -455,7 +455,7 @@ def square_opts():
 
 
 CREDIT01_GOOD = ['0', '1', '0.5', '0.0', '1.0', '0.9']
-CREDIT01_BAD = ['-0.1', '1.5', "'0.2'", 'None', '[0.5]']
+CREDIT01_BAD = ['-0.1', '1.5', "'0.2'", 'None', '[0.5]', "float('nan')"]   # NaN is not a number between 0 and 1
 MSG_OPT = dict(good=["'m'", "''"], bad=['5', "['m']", 'True'])
 LIN_CREDIT_GOOD = ['0', '1', '0.25', 'None', '0.5', '1.0']
 LIN_CREDIT_BAD = ["'abc'", '[0.5]', '1j', "{'a': 1}"]
@@ -503,7 +503,7 @@ TABLE = {
     'RandomFunction': C('sampler', {}, {
         'input_dim': O('1', ['2', '3'], POS_INT_BAD), 'output_dim': O('1', ['2', '3'], POS_INT_BAD),
         'num_terms': O('3', ['1', '5'], POS_INT_BAD), 'center': O('0', ['1', '0.5', '-3'], ["'0'", 'None', '[0]']),
-        'amplitude': O('10', ['2', '0.5'], ["'10'", 'None', '[1]']), 'complex': bool_opt('False')}),
+        'amplitude': O('10', ['2', '0.5'], ["'10'", 'None', '[1]', "float('nan')"]), 'complex': bool_opt('False')}),
     'DependentSampler': C('sampler', {'formula': "'x^2'"}, {
         'formula': O(None, ["'x^2'", "'sqrt(x^2+y^2+z^2)'", "'[[x,0],[0,-x^2]]'", "'2'"],
                      ['5', 'None', "['x']", "'x+'", "'(x'"]),
